@@ -63,6 +63,12 @@ ENC = {
                    ml={"t": "int", "v": -1}),
     "int_99": dict(dtype="int", labels=[7, 100, 3, 5],
                    ml={"t": "int", "v": 99}),
+    # small non-negative integer classes that are NOT 0..K-1 (while every
+    # label may still be smaller than the number of classes)
+    "int_m1_shift": dict(dtype="int", labels=[1, 2, 3, 4],
+                         ml={"t": "int", "v": -1}),
+    "int_m1_gap": dict(dtype="int", labels=[0, 2, 4, 1],
+                       ml={"t": "int", "v": -1}),
     "str_zz": dict(dtype="str", labels=["a", "b", "zzz", "B"],
                    ml={"t": "str", "v": "zz"}),
     "str_empty": dict(dtype="str", labels=["x", "y", "z", "w"],
@@ -120,6 +126,10 @@ def _case(draw):
             if one_d:
                 w = [r[0] for r in w]
         case["w"] = w
+    if container == "ndarray" and not one_d:
+        lay = st.sampled_from([None, None, "F", "strided"])
+        case["y_layout"] = draw(lay)
+        case["w_layout"] = draw(lay)
     if fn == "majority_vote":
         case["random_state"] = draw(st.integers(0, 2**31 - 1))
     if fn == "confusion":
@@ -161,7 +171,22 @@ def build_y(case):
     if case["container"] == "list":
         return ([list(r) for r in case["y"]] if not case["one_d"]
                 else list(case["y"]))
-    return _arr(case["y"], case["dtype"], shape)
+    return _layout(_arr(case["y"], case["dtype"], shape),
+                   case.get("y_layout"))
+
+
+def _layout(a, layout):
+    """Memory layout of a 2-D ndarray argument: C (default), Fortran order
+    (e.g. the transpose of a per-annotator array) or a strided view."""
+    if layout is None or a.ndim != 2 or a.size == 0:
+        return a
+    if layout == "F":
+        return np.asfortranarray(a)
+    if layout == "strided":
+        big = np.zeros((a.shape[0], 2 * a.shape[1]), dtype=a.dtype)
+        big[:, ::2] = a
+        return big[:, ::2]
+    return a
 
 
 def build_w(case):
@@ -170,8 +195,9 @@ def build_w(case):
         return None
     if case["container"] == "list":
         return [list(r) for r in w] if not case["one_d"] else list(w)
-    return np.array(w, dtype=float).reshape(
-        (case["n"],) if case["one_d"] else (case["n"], case["n_annotators"]))
+    return _layout(np.array(w, dtype=float).reshape(
+        (case["n"],) if case["one_d"] else (case["n"], case["n_annotators"])),
+        case.get("w_layout"))
 
 
 def build_classes(case):
